@@ -402,6 +402,27 @@ def kwOf (s : String) : Except String Pfdl.Syntax.Kw :=
   | "Condition" => pure .condition | "Passed" => pure .passed | "Failed" => pure .failed | "End" => pure .end_
   | _ => jerr s!"keyword {s}"
 
+def jTokOf (j : Json) : Except String Pfdl.Json.JTok := do
+  match ← getStr (← field j "j") with
+  | "str" => do pure (.str (← getStr (← field j "s")))
+  | "num" => do pure (.num (← getStr (← field j "s")))
+  | "true" => pure .tru
+  | "false" => pure .fls
+  | "{" => pure .lbrace
+  | "}" => pure .rbrace
+  | "[" => pure .lbr
+  | "]" => pure .rbr
+  | "," => pure .comma
+  | ":" => pure .colon
+  | x => jerr s!"json token {x}"
+
+partial def jvJson : Pfdl.Json.JV → Json
+  | .str s => Json.mkObj [("s", .str s)]
+  | .num s => Json.mkObj [("n", .str s)]
+  | .bool b => .bool b
+  | .obj fs => Json.mkObj [("o", Json.arr (fs.map (fun (k, v) => Json.arr #[.str k, jvJson v])).toArray)]
+  | .arr xs => Json.mkObj [("a", Json.arr (xs.map jvJson).toArray)]
+
 def synTokOf (j : Json) : Except String Pfdl.Syntax.Tok := do
   let ty ← getStr (← field j "t")
   let line ← getNat (← field j "l")
@@ -419,7 +440,7 @@ def synTokOf (j : Json) : Except String Pfdl.Syntax.Tok := do
     | "nl" => pure .nl
     | "ind" => pure .ind
     | "ded" => pure .ded
-    | "json" => do pure (.json (← str))
+    | "json" => do pure (.json (← (← getArr (← field j "toks")).toList.mapM jTokOf))
     | "ex" => do pure (.ex (← tokOf (← field j "e")))
     | _ => jerr s!"token type {ty}"
   pure ⟨k, line⟩
@@ -446,7 +467,7 @@ def segsJson (root : String) (ss : List Pfdl.Syntax.Seg) : Json :=
 def synParamJson : Pfdl.Syntax.Param → Json
   | .var x => .str x
   | .path x ss => segsJson x ss
-  | .lit s j => Json.mkObj [("lit", .str s), ("json", .str j)]
+  | .lit s fs => Json.mkObj [("lit", .str s), ("json", jvJson (.obj fs))]
 
 def synCallJson (k : String) (c : Pfdl.Syntax.Call) : Json :=
   Json.mkObj [("k", .str k), ("name", .str c.name), ("ins", Json.arr (c.ins.map synParamJson).toArray),
